@@ -1405,6 +1405,22 @@ func genSnapshot(r *rand.Rand, id string, size int, total int) []string {
 			g.add("cut %d %d", p, o)
 		}
 	}
+	if !pendingQueue && len(peers) > 1 && g.pick(4) == 0 {
+		// a snapshot saved WHILE a fetch is in flight (the request is held at the block): the save must come
+		// back, and record what is still to be fetched
+		q := peers[1]
+		if kind == "log" {
+			g.add("add %d %s", q, hx(g.value()))
+		} else {
+			g.add("put %d %s %s", q, hx([]byte{byte('a' + g.pick(3))}), hx(g.value()))
+		}
+		g.add("hold %d @heads%d", p, q)
+		g.add("syncasync %d heads=@heads%d", p, q)
+		g.add("waitget %d @heads%d", p, q)
+		g.add("snapsave %d", p)
+		g.add("release %d @heads%d", p, q)
+		g.add("settle %d", p)
+	}
 	g.add("obs %d", p)
 	raced := g.pick(3) == 0
 	if raced {
